@@ -76,6 +76,7 @@ func main() {
 				defer wg.Done()
 				r := rand.New(rand.NewSource(int64(iter*10 + pr)))
 				for k := 0; k < 8; k++ {
+					if timerMode && k == 4 { time.Sleep(25 * time.Millisecond) } // second wave after the first timer period
 					tenant := fmt.Sprint("t", r.Intn(3)); region := fmt.Sprint("r", r.Intn(2))
 					md := map[string][]string{"tenant": {tenant}, "region": {region}, "other": {"x"}}
 					ctx := client.NewContext(context.Background(), client.Info{Metadata: client.NewMetadata(md)})
